@@ -387,6 +387,8 @@ pub fn drive(args: &[String]) -> i32 {
             both(&mut jobs, "snipedit", format!("snippet {si} without token {ti}"), format!("{}{}", &sn[..t.start], &sn[t.end..]), false);
             for mat in ["\"\"", "MIN", "MAX", "...", "}", "(", "0", "Zork", "zork", "''B", "170141183460469231731687303715884105727", "-170141183460469231731687303715884105728",
                         "CONTAINING INTEGER", "SIZE", "FROM",
+                        // bit and hex strings that stop inside an octet, with a 1-bit in the incomplete one
+                        "'101'B", "'ABC'H",
                         // names spelled with NON-BREAKING HYPHEN (U+2011), which X.680 12.1 lets stand for the hyphen in names
                         "zo\u{2011}rk", "Zo\u{2011}rk"] {
                 both(&mut jobs, "snipedit", format!("snippet {si} token {ti} replaced by {mat}"), format!("{}{mat}{}", &sn[..t.start], &sn[t.end..]), false);
